@@ -150,6 +150,8 @@ def assess(spec, want=('ram', 'raj')):
         km = ap['P_RAJ_klass_max'] if 'P_RAJ_klass_max' in ap else getattr(ap, 'P_RAJ_klass_max', None)
         out['RAJ_klass_max'] = _lst(_per_point(km, n)) if km is not None else None
         dc = r['P_RAJ_damage_calculator']
+        de = getattr(ap, 'P_RAJ_D_e', None)
+        out['RAJ_D_e'] = _lst(_per_point(de, n)) if de is not None else None
         out['RAJ_q'] = [int(v) for v in np.atleast_1d(np.asarray(dc._q))]
         out['RAJ_H0'] = _lst(dc._H_0)
     return out
@@ -219,7 +221,8 @@ def _job(a):
 
 def run_jobs(jobs, procs=None):
     """jobs: list of (kind, payload).  Runs them in a fork pool (the rebuilt rainflow extension is inherited)."""
-    procs = procs or max(2, min(16, os.cpu_count() or 2))
+    import common
+    procs = procs or common.NCPU
     if len(jobs) <= 1 or procs == 1:
         return [_job(j) for j in jobs]
     ctx = multiprocessing.get_context('fork')
@@ -243,9 +246,10 @@ def turning_points(seq):
 
 
 def edge_distance(seq, nbins=100):
-    """Smallest relative distance of 100*|x|/max|x| (loads) and 100*|x-y|/max|x| (load ranges between any two samples,
-    and ranges from 0) to an integer: the binned notch law looks values up by class, classes are the multiples of max/100;
-    a load (range) on a class edge is where float rounding decides the class."""
+    """Smallest distance (in units of one look-up class) of nbins*|x|/max|x| (loads) and nbins*|x-y|/max|x| (load ranges between any
+    two samples) to an integer: the binned notch law looks values up by class, the class edges are the multiples of max/nbins; a
+    load (range) on a class edge is where float rounding decides the class.  Ranges that are exactly max or 2*max are exempt:
+    their edges nbins/nbins*max and 2*nbins/nbins*max are exact in floats."""
     xs = sorted(set(float(v) for v in seq) | {0.0})
     m = max(abs(v) for v in xs)
     if m == 0:
@@ -253,6 +257,9 @@ def edge_distance(seq, nbins=100):
     best = 1.0
     for i, a in enumerate(xs):
         for b in xs[i + 1:]:
-            t = nbins * abs(a - b) / m
+            d = abs(a - b)
+            if d == m or d == 2 * m or d == 0:
+                continue
+            t = nbins * d / m
             best = min(best, abs(t - round(t)))
     return best
